@@ -39,3 +39,6 @@ SPEC = Spec(
                 "log; in the crashed (frozen) state every object is re-hashed, protection bits and state rows are checked and every directory object's "
                 "children are looked up; then the operation is re-run with fresh in-memory objects and must converge to the uninterrupted result.",
 )
+
+MANIFEST = {"technique": "symbolic execution (CrossHair + z3) of the real staging/add/transfer/save code on a model filesystem with the crash index symbolic "
+                         "over the whole mutation log; crashed state audited, re-run must converge"}
